@@ -212,6 +212,32 @@ def _check_masks(pg, o, directed, bad, label, cls_name):
         bad.append((label + "from_mask modified the receiver", {}, None))
 
 
+def _edge_forms(build, E, n, ref, bad, label, undirected):
+    """the same edge list in every legal form of the array: narrow / unsigned integer types wide enough for the vertex ids,
+    a list of lists, rows in another order (and, undirected, each edge listed in both directions) - always the same graph"""
+    A0 = np.asarray(ref.adjacency_matrix.todense())
+    forms = [("int32", E.astype(np.int32)), ("int16", E.astype(np.int16)), ("uint16", E.astype(np.uint16)), ("uint32", E.astype(np.uint32)),
+             ("list of lists", E.tolist()), ("rows reversed", E[::-1].copy())]
+    if n <= 256:
+        forms.append(("uint8", E.astype(np.uint8)))
+    if n <= 128:
+        forms.append(("int8", E.astype(np.int8)))
+    if undirected and len(E):
+        forms.append(("both directions listed", np.vstack([E, E[:, ::-1]])))
+    if not len(E):
+        forms = [f for f in forms if f[0] != "list of lists"]
+    for name, ee in forms:
+        try:
+            g2 = build(ee)
+            A = np.asarray(g2.adjacency_matrix.todense())
+        except Exception as e:
+            bad.append((label + "a legal edge list given as %s is refused / fails" % name, {"n": n, "error": "%s: %s" % (type(e).__name__, str(e)[:100])}, None))
+            return
+        if A.shape != A0.shape or not np.array_equal(A != 0, A0 != 0) or g2.n_edges != ref.n_edges:
+            bad.append((label + "the edge list given as %s builds another graph" % name, {"n": n}, None))
+            return
+
+
 def check_ug(o):
     import menpo.shape as ms
 
@@ -229,6 +255,8 @@ def check_ug(o):
                 break
         if bool(gg.is_tree()) != o["tree"]:
             bad.append((label + "is_tree wrong", {"got": bool(gg.is_tree()), "want": o["tree"]}, None))
+    _edge_forms(lambda ee: ms.UndirectedGraph.init_from_edges(ee, n), E, n, g, bad, "UndirectedGraph: ", True)
+    _edge_forms(lambda ee: ms.PointUndirectedGraph.init_from_edges(_pts(n), ee), E, n, g, bad, "PointUndirectedGraph: ", True)
     _check_masks(pg, o, False, bad, "PointUndirectedGraph: ", "PointUndirectedGraph")
     if len(E):
         wg = _weighted(ms.UndirectedGraph, o, False)
@@ -274,6 +302,8 @@ def check_dg(o):
                sorted(int(x) for x in gg.parents(v)) != sorted(pa[v]) or gg.n_parents(v) != len(pa[v]):
                 bad.append((label + "children / parents wrong", {"vertex": v}, None))
                 break
+    _edge_forms(lambda ee: ms.DirectedGraph.init_from_edges(ee, n), E, n, g, bad, "DirectedGraph: ", False)
+    _edge_forms(lambda ee: ms.PointDirectedGraph.init_from_edges(_pts(n), ee), E, n, g, bad, "PointDirectedGraph: ", False)
     _check_masks(pg, o, True, bad, "PointDirectedGraph: ", "PointDirectedGraph")
     if len(E):
         P = _pts(n)
@@ -330,6 +360,8 @@ def check_tree(o):
         if bad:
             return bad
     pt = ms.PointTree.init_from_edges(_pts(n), E, root)
+    _edge_forms(lambda ee: ms.Tree.init_from_edges(ee, n, root), E, n, pt, bad, "Tree: ", False)
+    _edge_forms(lambda ee: ms.PointTree.init_from_edges(_pts(n), ee, root), E, n, pt, bad, "PointTree: ", False)
     P = _pts(n)
     for key, exp in o["masks"].items():
         keep = _mask_key(key)
